@@ -100,7 +100,7 @@ func runCSnap(r *verifsim.Run) {
 		sc.Conns = sc.Conns[:1]
 		cn := sc.Conns[0]
 		cn.Cfg.Fps = 1
-		cn.Cfg.WinStart, cn.Cfg.WinStop = "23:00", "00:04"
+		cn.Cfg.WinStart, cn.Cfg.WinStop = localHHMM(-60), localHHMM(4)
 		cn.CutAt = -1
 		val := 1
 		for i := range cn.Ev {
